@@ -101,6 +101,19 @@ func main() {
 		os.Exit(2)
 	}
 	switch os.Args[1] {
+	case "cases": // vcheck cases <Cxx> <tier>: prints the descriptors of the run's case list (coverage audit)
+		p, ok := props.All[os.Args[2]]
+		if !ok {
+			os.Exit(2)
+		}
+		seed := uint64(1)
+		if v, err := strconv.ParseUint(os.Getenv("VERIF_SEED"), 10, 64); err == nil {
+			seed = v
+		}
+		for _, c := range p.Build(os.Args[3], seed) {
+			b, _ := json.Marshal(c)
+			fmt.Println(string(b))
+		}
 	case "dumpseed":
 		props.DumpSeed(os.Args[2], os.Args[3])
 	case "seeds": // development aid: what every entry point answers on every valid hostile seed
